@@ -693,6 +693,55 @@ protocols_sign(signature_t *sig,
     return found;
 }
 
+// Range validation of the public key and signature values handed to protocols_verif.
+// Every field below indexes a precomputed table, sizes a stack array, bounds a loop or is an
+// exponent in the verification, so values an honest signer cannot produce are rejected before
+// any use.
+static int
+public_key_in_range(const public_key_t *pk)
+{
+    if (!fp2_is_one(&pk->curve.C) || pk->curve.is_A24_computed_and_normalized)
+        return 0;
+    if (pk->hint_pk[0] < 0 || pk->hint_pk[1] < 0)
+        return 0;
+    return 1;
+}
+
+static int
+signature_in_range(const signature_t *sig)
+{
+    if (!fp2_is_one(&sig->E_aux.C) || sig->E_aux.is_A24_computed_and_normalized)
+        return 0;
+    if (sig->two_resp_length < 0 ||
+        sig->two_resp_length >=
+            (int)(sizeof(strategies) / sizeof(strategies[0])) -
+                (TORSION_PLUS_EVEN_POWER - SQIsign2D_response_heuristic_bound + 2))
+        return 0;
+    if (sig->hint_aux[0] < 0 || sig->hint_aux[1] < 0)
+        return 0;
+    if (sig->hint_b < 0 || sig->hint_b > 1)
+        return 0;
+    // with a = length of the challenge isogeny and n = TORSION_PLUS_EVEN_POWER - a:
+    // x, b1, d1 are residues modulo 2^a and b0, d0, c0_adjust, e0_adjust are residues modulo 2^n
+    int a = SQIsign2D_heuristic_challenge_length + sig->two_resp_length;
+    int n = TORSION_PLUS_EVEN_POWER - a;
+    if (ibz_cmp(&sig->x, &ibz_const_zero) < 0 || ibz_bitsize(&sig->x) > a)
+        return 0;
+    if (ibz_cmp(&sig->b1, &ibz_const_zero) < 0 || ibz_bitsize(&sig->b1) > a)
+        return 0;
+    if (ibz_cmp(&sig->d1, &ibz_const_zero) < 0 || ibz_bitsize(&sig->d1) > a)
+        return 0;
+    if (ibz_cmp(&sig->b0, &ibz_const_zero) < 0 || ibz_bitsize(&sig->b0) > n)
+        return 0;
+    if (ibz_cmp(&sig->d0, &ibz_const_zero) < 0 || ibz_bitsize(&sig->d0) > n)
+        return 0;
+    if (ibz_cmp(&sig->c0_adjust, &ibz_const_zero) < 0 || ibz_bitsize(&sig->c0_adjust) > n)
+        return 0;
+    if (ibz_cmp(&sig->e0_adjust, &ibz_const_zero) < 0 || ibz_bitsize(&sig->e0_adjust) > n)
+        return 0;
+    return 1;
+}
+
 int
 protocols_verif(signature_t *sig, const public_key_t *pk, const unsigned char *m, size_t l)
 {
@@ -704,6 +753,12 @@ protocols_verif(signature_t *sig, const public_key_t *pk, const unsigned char *m
     ec_isog_even_t phi_chall;
     ec_basis_t bas_EA, B_chall;
     ec_curve_t Epk;
+
+    // rejecting public keys and signatures whose values are outside the ranges the computations
+    // below assume (table indices, array sizes, loop bounds, exponents)
+    if (!public_key_in_range(pk) || !signature_in_range(sig)) {
+        return 0;
+    }
 
     ec_curve_init(&Epk);
     ibz_mat_2x2_init(&mat);
@@ -831,17 +886,21 @@ protocols_verif(signature_t *sig, const public_key_t *pk, const unsigned char *m
     t = tic();
 
     ec_basis_t B_aux_can;
+    // working on a copy: the basis computation normalises the curve and caches A24 in it,
+    // the signature handed in by the caller is left untouched
+    ec_curve_t E_aux;
+    copy_curve(&E_aux, &sig->E_aux);
 
     // recovering the canonical basis
-    ec_curve_to_basis_2f_from_hint(&B_aux_can, &sig->E_aux, TORSION_PLUS_EVEN_POWER, sig->hint_aux);
+    ec_curve_to_basis_2f_from_hint(&B_aux_can, &E_aux, TORSION_PLUS_EVEN_POWER, sig->hint_aux);
 
     // setting to the right order
     ec_dbl_iter(
-        &B_aux_can.P, TORSION_PLUS_EVEN_POWER - pow_dim2_deg_resp, &sig->E_aux, &B_aux_can.P);
+        &B_aux_can.P, TORSION_PLUS_EVEN_POWER - pow_dim2_deg_resp, &E_aux, &B_aux_can.P);
     ec_dbl_iter(
-        &B_aux_can.Q, TORSION_PLUS_EVEN_POWER - pow_dim2_deg_resp, &sig->E_aux, &B_aux_can.Q);
+        &B_aux_can.Q, TORSION_PLUS_EVEN_POWER - pow_dim2_deg_resp, &E_aux, &B_aux_can.Q);
     ec_dbl_iter(
-        &B_aux_can.PmQ, TORSION_PLUS_EVEN_POWER - pow_dim2_deg_resp, &sig->E_aux, &B_aux_can.PmQ);
+        &B_aux_can.PmQ, TORSION_PLUS_EVEN_POWER - pow_dim2_deg_resp, &E_aux, &B_aux_can.PmQ);
 
 #ifndef NDEBUG
     ec_basis_t bas_test, bas_ref;
@@ -856,7 +915,7 @@ protocols_verif(signature_t *sig, const public_key_t *pk, const unsigned char *m
     AC_to_A24(&A24, &Echall);
     ec_normalize_point(&A24);
     weil(&w0, pow_dim2_deg_resp, &bas_ref.P, &bas_ref.Q, &bas_ref.PmQ, &A24);
-    AC_to_A24(&A24, &sig->E_aux);
+    AC_to_A24(&A24, &E_aux);
     ec_normalize_point(&A24);
     weil(&w1, pow_dim2_deg_resp, &bas_test.P, &bas_test.Q, &bas_test.PmQ, &A24);
     fp2_mul(&w0_test, &w0, &w1);
@@ -873,7 +932,7 @@ protocols_verif(signature_t *sig, const public_key_t *pk, const unsigned char *m
     theta_couple_point_t T1, T2, T1m2;
     theta_chain_t isog;
     copy_curve(&EchallxEaux.E1, &Echall);
-    copy_curve(&EchallxEaux.E2, &sig->E_aux);
+    copy_curve(&EchallxEaux.E2, &E_aux);
     copy_point(&T1.P2, &B_aux_can.P);
     copy_point(&T2.P2, &B_aux_can.Q);
     copy_point(&T1m2.P2, &B_aux_can.PmQ);
